@@ -769,9 +769,26 @@ class Crate:
         return fs[0] if len(fs) == 1 else None
 
     def closures_of(self, f):
-        """closures lexically inside function f (any depth)"""
+        """closures lexically inside function f (any depth), plus closures whose aggregate is built in f's
+        (possibly inlined) body — an inlined helper's closures carry the helper's name, not f's"""
         pre = f.name + '::{closure#'
-        return [g for n, g in self.fns.items() if n.startswith(pre)]
+        out = {n: g for n, g in self.fns.items() if n.startswith(pre)}
+        todo = [f] + list(out.values())
+        seen = set()
+        while todo:
+            g = todo.pop()
+            if g.name in seen:
+                continue
+            seen.add(g.name)
+            for b in g.blocks:
+                for st in b['stmts']:
+                    rv = st.get('rv') or {}
+                    if rv.get('r') == 'agg' and rv.get('kind', {}).get('k') == 'closure':
+                        c = self.fns.get(rv['kind']['path'])
+                        if c is not None and c.name not in out and c.name != f.name:
+                            out[c.name] = c
+                            todo.append(c)
+        return list(out.values())
 
     def non_test_fns(self):
         for n, f in self.fns.items():
